@@ -25,7 +25,7 @@ func init() {
 		Explanation: "Structural necessary conditions of the value/entity/request JSON round trip: R13.1 per type, every key written by the encoder at a path is read by the decoder at the same path with a " +
 			"compatible kind (JSON shapes derived from struct tags and from the values hand-written MarshalJSON/UnmarshalJSON methods pass to encoding/json); R13.2 one extension-function vocabulary across " +
 			"the four MarshalJSON methods, the generic value decoder's switch, the per-kind decoders and schema-guided coercion, each name bound to the same parser; R13.3 UseNumber precedes Decode in the " +
-			"scalar decoder and the Int64 conversion error is returned; R13.4 implicit entity keys agree between writer, reader and coercion. Not decided: value equality after a round trip. R13.14 JSON emitters take string escaping from encoding/json (no Go-style quoting).",
+			"scalar decoder and the Int64 conversion error is returned; R13.4 implicit entity keys agree between writer, reader and coercion. Not decided: value equality after a round trip. R13.14 JSON emitters take string escaping from encoding/json (no Go-style quoting). R13.15 no JSON decoder looks for a quoted member name in the raw input (names are compared after decoding).",
 		Run: runC13,
 	})
 }
@@ -33,6 +33,7 @@ func init() {
 func runC13(p *Prog, r *Report) {
 	c13Shapes(p, r)
 	jsonEmittersQuoteAsJSON(p, r, "R13.14-json-quoting", 15)
+	jsonDecodersCompareDecodedNames(p, r, "R13.15-decoded-names", 15)
 	c13FnVocabulary(p, r)
 	c13UseNumber(p, r)
 	exactNumberSites(p, r, "R13.3-untyped-decode-sites")
